@@ -86,9 +86,13 @@ func runSSH(c SSHCase) (o hx.Outcome) {
 		return o
 	}
 	defer func() { rs.Close(); reapChildren() }()
+	// chunks handed out by the ssh store are held and consumed after the history, when the
+	// sessions of the pool have served further requests (held_test.go)
+	held := newHeldSet("ssh")
+	defer held.close()
 	sawPresent, sawMissing := false, false
 	missingSeen := 0
-	for _, r := range c.Reqs {
+	for ri, r := range c.Reqs {
 		if r < 0 || r >= len(ids) {
 			continue
 		}
@@ -115,6 +119,8 @@ func runSSH(c SSHCase) (o hx.Outcome) {
 			b, derr := ch.Data()
 			if derr != nil || !bytes.Equal(b, datas[r]) {
 				o.Fail(sig("ssh", resOK, resWrong), "chunk %d arrived altered over ssh (%d vs %d bytes, err %v)", r, len(b), len(datas[r]), derr)
+			} else {
+				held.hold(&heldChunk{ch: ch, id: ids[r], want: datas[r], seq: ri, label: fmt.Sprintf("request %d (chunk %d, pool of %d)", ri, r, n)})
 			}
 		default:
 			sawMissing = true
@@ -129,6 +135,10 @@ func runSSH(c SSHCase) (o hx.Outcome) {
 			}
 			missingSeen++
 		}
+	}
+	held.consumeAll(&o, "after the history")
+	if len(held.chunks) > 1 {
+		o.Class("ssh:held-consumed-later")
 	}
 	o.Class("ssh:e2e")
 	if sawPresent {
